@@ -289,6 +289,12 @@ func cmdCheck(args []string) int {
 			kfLines = append(kfLines, fmt.Sprintf("NOTE: known finding %s no longer fails (%s)", k.KF, pat))
 		}
 	}
+	// known findings that no obligation speaks about (witness only) are reported on every run as well
+	for _, k := range known {
+		if k.Property == *prop && k.Status == "known" && strings.HasPrefix(k.Obligation, "(witness only") {
+			kfLines = append(kfLines, fmt.Sprintf("KNOWN-FINDING: property=%s %s: %s [witness %s]", *prop, k.KF, k.What, k.Witness))
+		}
+	}
 	sort.Strings(kfLines)
 	// claimed obligations that disappeared
 	if !*writeClaims {
